@@ -121,7 +121,7 @@ func (g graph) expected(entries []string, limit int, sender string) (inboxes map
 	inboxes, mayDeref = map[string]bool{}, map[string]bool{}
 	var expand func(id string, level int)
 	expand = func(id string, level int) {
-		if level > limit {
+		if limit > 0 && level > limit {
 			return
 		}
 		n := g[id]
@@ -429,6 +429,32 @@ func C02(tier string) int {
 				c02case{entries: es, placement: 0, k1: []string{Erin, Dave}, limit: 1, entry: "PostOutbox"})
 		}
 	}
+	// the unlimited settings of the depth limit (zero and negative) on graphs without a cycle
+	for _, es := range seqs(c02alphabet, 2) {
+		cyc := false
+		for _, e := range es {
+			if e.id == gP1 {
+				cyc = true
+			}
+		}
+		if cyc || !touchesCollections(es) {
+			continue
+		}
+		for _, k1 := range k1s {
+			acyclic := true
+			for _, m := range k1 {
+				if m == gK1 || m == gK2 || m == gP1 {
+					acyclic = false
+				}
+			}
+			if !acyclic {
+				continue
+			}
+			for _, lim := range []int{0, -1} {
+				cases = append(cases, c02case{entries: es, placement: 1, k1: k1, limit: lim, entry: "Send"})
+			}
+		}
+	}
 	// shared inboxes: several actors for which the application knows (or which publish) ONE inbox; every
 	// addressing sequence of length 2-4 over the reduced alphabet
 	for _, es := range seqs(long, 4) {
@@ -481,7 +507,7 @@ func C02(tier string) int {
 		}
 		cases = append(cases, c02case{entries: []c02entry{sp, {id: Erin}}, placement: 1, k1: []string{Carol, gK2}, limit: 2, entry: "PostOutbox"})
 	}
-	res.Rule = fmt.Sprintf("federation graphs over {dereferencable actor, embedded actor, actor with stored inbox (remote inbox differing), actor with stored = remote inbox, missing, garbled, unknown-type, Collection K1 with every member sequence of length <= %d over 8 nodes and six member sequences of length 3-4, OrderedCollection K2 = [actor, K1], page P1 = [actor, P1, K2] (cycles), Public in both IRI spellings, the sender (named directly or as a member; with and without an inbox of its own stored by the application)}; plus every addressing sequence of length 3-4 over {plain actor, two actors with an application-stored inbox, collection, unreachable actor, sender}; plus an actor-document family (the remote actor published as Service / Group / Organization / Application, with two types (known or unknown first), with its inbox spelled as an embedded OrderedCollection / page, with a sharedInbox endpoint, with a public key under the security context, Mastodon-like with extension terms, with unknown and near-miss members, under an aliased context); plus a shared-inbox family (two or three actors for which the application knows one shared inbox, or that publish the same inbox, in every addressing sequence of length 2-4 over the reduced alphabet); plus a collection-shape family (each of Collection / OrderedCollection / CollectionPage / OrderedCollectionPage with its items member absent (totalItems + first only), empty, one, two, three or four (one repeated) members; addressed directly, next to actors, or reached through K1) and a reference-spelling family (an entry written as an embedded Mention with href only, or as an embedded Link with id and a decoy href, alone and paired with every alphabet entry); every ordered sequence of <= %d addressed entries over that 15-entry alphabet, placed in 'to' only / spread over to,bto,cc,bcc,audience / reversed; depth limit %v; entry points Send and client POST; %d runs; plus all two-delivery histories through one actor instance over 2 senders x 5 addressees (first) x 25 addressee pairs (second); oracle: an independent recursive function over the graph description gives the expected inbox set and the IRIs that may be dereferenced; non-trivial = runs in which something was dereferenced or delivered, distinct by (entries, placement, K1, limit)", map[bool]int{false: 1, true: 2}[res.Thorough()], maxEntries, limits, len(cases))
+	res.Rule = fmt.Sprintf("federation graphs over {dereferencable actor, embedded actor, actor with stored inbox (remote inbox differing), actor with stored = remote inbox, missing, garbled, unknown-type, Collection K1 with every member sequence of length <= %d over 8 nodes and six member sequences of length 3-4, OrderedCollection K2 = [actor, K1], page P1 = [actor, P1, K2] (cycles), Public in both IRI spellings, the sender (named directly or as a member; with and without an inbox of its own stored by the application)}; plus every addressing sequence of length 3-4 over {plain actor, two actors with an application-stored inbox, collection, unreachable actor, sender}; plus an actor-document family (the remote actor published as Service / Group / Organization / Application, with two types (known or unknown first), with its inbox spelled as an embedded OrderedCollection / page, with a sharedInbox endpoint, with a public key under the security context, Mastodon-like with extension terms, with unknown and near-miss members, under an aliased context); plus a shared-inbox family (two or three actors for which the application knows one shared inbox, or that publish the same inbox, in every addressing sequence of length 2-4 over the reduced alphabet); plus a collection-shape family (each of Collection / OrderedCollection / CollectionPage / OrderedCollectionPage with its items member absent (totalItems + first only), empty, one, two, three or four (one repeated) members; addressed directly, next to actors, or reached through K1) and a reference-spelling family (an entry written as an embedded Mention with href only, or as an embedded Link with id and a decoy href, alone and paired with every alphabet entry); every ordered sequence of <= %d addressed entries over that 15-entry alphabet, placed in 'to' only / spread over to,bto,cc,bcc,audience / reversed; depth limit %v, and the unlimited settings 0 and -1 on the graphs without a cycle; entry points Send and client POST; %d runs; plus all two-delivery histories through one actor instance over 2 senders x 5 addressees (first) x 25 addressee pairs (second); oracle: an independent recursive function over the graph description gives the expected inbox set and the IRIs that may be dereferenced; non-trivial = runs in which something was dereferenced or delivered, distinct by (entries, placement, K1, limit)", map[bool]int{false: 1, true: 2}[res.Thorough()], maxEntries, limits, len(cases))
 	res.Assumptions = []string{"order of recipients and how often one IRI is dereferenced are not asserted",
 		"documents that decode to a known non-actor type or to an actor without inbox are outside the alphabet (the statement is silent; C11 covers crashes)",
 		"the stored inbox is consulted for directly addressed actors only, as the code does; collection members with a stored inbox have stored == remote inbox"}
